@@ -23,5 +23,5 @@ pub fn run(ctx: &Ctx, replay: Option<&str>) -> i32 {
          non-direct patterns and an observation.",
     );
     ctx.assume("values are shared through variables, closures, containers and native threads; sharing through continuations is exercised by C08's re-entry templates");
-    collcheck::run(ctx, replay, "c03", Mode::Persistence, 4000, 150_000, true)
+    collcheck::run(ctx, replay, "c03", Mode::Persistence, 12_000, 400_000, true)
 }
